@@ -85,7 +85,8 @@ def itemOk (st : Storage) (r : RegDef) (data : List Val) : Bool :=
   | .text, .str d =>
     -- the identifier must fit its token and survive the split; the data as in C11
     r.ident != [] && Spec.C11.inDomain r.fields data d && r.ident.all (fun c => !d.contains c)
-  | .binary, .none =>
+  | .binary, _ =>
+    -- a delimiter declared on the LINE is inert in binary storage
     contiguous r && (r.fields.zip data).all (fun (f, v) => Spec.C09.fieldInDomain f v) && decide (0 < r.digits + (r.fields.map (·.size)).sum)
   | _, _ => false
 
